@@ -18,9 +18,18 @@ REQUIREMENT = ("command = 00000000 ++ hex('Para|HexCode' of the most specific st
                "= those present in the set (Spec/Remote.v)")
 
 
-def caps_impl(r):
-    return ",".join(m.name for m in r.supported_modes) + ("," if r.supported_modes else "") + "|%d|%d|%s|%s" % (
-        r.min_temperature, r.max_temperature, "1" if r.on_off_type else "0", "1" if r.separated_swing_command else "0")
+def caps_impl(r, order=0):
+    # the five capabilities read in one of several orders (an application may ask for any of them first)
+    names = ["supported_modes", "min_temperature", "max_temperature", "on_off_type", "separated_swing_command"]
+    k = order % 5; got = {n: getattr(r, n) for n in names[k:] + names[:k]}
+    return ",".join(m.name for m in got["supported_modes"]) + ("," if got["supported_modes"] else "") + "|%d|%d|%s|%s" % (
+        got["min_temperature"], got["max_temperature"], "1" if got["on_off_type"] else "0", "1" if got["separated_swing_command"] else "0")
+
+
+def caps_fresh(irset, order):
+    """the capabilities of a remote object nobody has touched yet, read in the given order"""
+    try: return caps_impl(SwitcherBreezeRemote(irset), order)
+    except Exception as e: return "exc:" + world.exc_name(e)
 
 
 def build_impl(r, q):
@@ -76,7 +85,7 @@ def run_stream(out, stream, cases, via_manager=False):
                     except Exception: pass
                     try: r.modes_features.get(m)
                     except Exception: pass
-            io_caps.append(caps_impl(r)); io.append(build_impl(r, c["q"]))
+            io_caps.append(caps_fresh(s, k) if k % 2 else caps_impl(r, k)); io.append(build_impl(r, c["q"]))
     finally:
         if tmp:
             import shutil; shutil.rmtree(tmp, ignore_errors=True)
